@@ -26,11 +26,11 @@ SCRATCH = {
   "cM", "cqLD", "crhs", "cx", "cJ", "cMa", "cqfrc_smooth", "cqacc_smooth", "cqacc_warmstart", "cqacc",
   "cqfrc_constraint", "cdof_dof", "dof_cdof", "ncdof", "map_efc2iefc", "map_iefc2efc", "efc_islandid",
   "island_dofadr", "island_idofadr", "island_nv", "island_nefc", "island_ne", "island_nf", "island_iefcadr", "map_dof2idof",
-  "map_idof2dof", "dof_islandid",  # sized ntree / nv, only the first nisland / nidof entries are (re)written
+  "map_idof2dof", "dof_islandid", "dof_island", "nidof",  # written only by compute_island_mapping (ntree > 1); sized ntree / nv, only the first nisland / nidof entries are (re)written
   "qLU", "qfrc_inverse", "wrap_obj", "wrap_xpos", "body_awake_ind", "dof_awake_ind", "flex_aabb_min", "flex_aabb_max",
 }  # fmt: skip
 # written only when sleeping (and therefore island discovery) is enabled; otherwise they keep their creation-time values
-ISLAND_FIELDS = {"nisland", "nidof", "tree_island", "dof_island"}
+ISLAND_FIELDS = {"nisland", "tree_island"}
 AWAKE_FIELDS = {"ntree_awake", "nbody_awake", "nv_awake", "tree_awake", "body_awake", "tree_asleep"}
 # storage of the inertia factorisation: which cells are meaningful depends on the block layout chosen at put_model
 # (reciprocal diagonals are written only for compact/sparse blocks); errors in it surface in qacc_smooth
@@ -68,6 +68,10 @@ def make_model(spec, batch_sizes=None):
   mjm = _models.load_mjm(spec)
   m = mjw.put_model(mjm, batch_sizes=batch_sizes) if batch_sizes else mjw.put_model(mjm)
   for k, v in (spec.get("mopt") or {}).items():  # options that exist only on the warp side
+    if k == "broadphase":
+      v = T.BroadphaseType(v)
+    elif k == "broadphase_filter":
+      v = T.BroadphaseFilter(v)
     setattr(m.opt, k, v)
   return mjm, m
 
